@@ -219,6 +219,7 @@ type vfC14Env struct {
 	maxForget int
 	forgets   int
 	maxDelay  time.Duration
+	sameIP    bool
 	lean      bool   // burst driver: only what PreparedOnce needs is logged (misses, removals, PREPAREs at the node)
 	lostMode  string // how a PREPARE is made to fail apart from an ERROR answer: "" | garbage | silent | kill
 	kills     int
@@ -309,7 +310,96 @@ func (env *vfC14Env) parseKey(s string) (vfC14Key, bool) {
 	return vfC14NoKey, false
 }
 
-func vfC14NewEnv(H, C, max int, uniq bool, seed int64, hold bool, timeout time.Duration) (*vfC14Env, error) {
+// vfC14Opt: further options of an environment.
+type vfC14Opt struct {
+	// SameIP: every host of the session is reached at ONE IP address and differs only in the port (what an
+	// AddressTranslator to a proxy / port forward / several nodes on one machine gives): hosts are then told apart
+	// by host id only.
+	SameIP bool
+}
+
+// vfC14NewEnv sets the environment up, retrying (a loaded machine may be too slow for the pools once).
+func vfC14NewEnv(H, C, max int, uniq bool, seed int64, hold bool, timeout time.Duration, opt ...vfC14Opt) (env *vfC14Env, err error) {
+	var o vfC14Opt
+	if len(opt) > 0 {
+		o = opt[0]
+	}
+	for try := 0; try < 3; try++ {
+		if env, err = vfC14NewEnv1(H, C, max, uniq, seed, hold, timeout, o); err == nil {
+			return env, nil
+		}
+	}
+	return nil, err
+}
+
+// vfC14Dialer dials scripted nodes by connect address AND port.
+type vfC14Dialer struct{ nodes map[string]*vfNode }
+
+func (d *vfC14Dialer) DialHost(ctx context.Context, host *HostInfo) (*DialedHost, error) {
+	n := d.nodes[fmt.Sprintf("%s:%d", host.ConnectAddress(), host.Port())]
+	if n == nil {
+		return nil, &net.OpError{Op: "dial", Net: "tcp", Err: fmt.Errorf("vf: no route to %s:%d", host.ConnectAddress(), host.Port())}
+	}
+	c, _, err := n.Dial()
+	if err != nil {
+		return nil, err
+	}
+	return &DialedHost{Conn: c}, nil
+}
+
+// vfC14Policy is a round-robin HostSelectionPolicy that tells hosts apart by host id (the stock policies treat
+// hosts with one connect address as one host).
+type vfC14Policy struct {
+	mu    sync.Mutex
+	hosts []*HostInfo
+	pos   uint32
+}
+
+func (p *vfC14Policy) AddHost(host *HostInfo) {
+	p.mu.Lock()
+	defer p.mu.Unlock()
+	for i, h := range p.hosts {
+		if h.HostID() == host.HostID() {
+			p.hosts[i] = host
+			return
+		}
+	}
+	p.hosts = append(p.hosts, host)
+}
+
+func (p *vfC14Policy) RemoveHost(host *HostInfo) {
+	p.mu.Lock()
+	defer p.mu.Unlock()
+	for i, h := range p.hosts {
+		if h.HostID() == host.HostID() {
+			p.hosts = append(append([]*HostInfo(nil), p.hosts[:i]...), p.hosts[i+1:]...)
+			return
+		}
+	}
+}
+func (p *vfC14Policy) HostUp(host *HostInfo)               { p.AddHost(host) }
+func (p *vfC14Policy) HostDown(host *HostInfo)             { p.RemoveHost(host) }
+func (p *vfC14Policy) SetPartitioner(string)               {}
+func (p *vfC14Policy) KeyspaceChanged(KeyspaceUpdateEvent) {}
+func (p *vfC14Policy) Init(*Session)                       {}
+func (p *vfC14Policy) IsLocal(*HostInfo) bool              { return true }
+func (p *vfC14Policy) Pick(ExecutableQuery) NextHost {
+	p.mu.Lock()
+	hosts := append([]*HostInfo(nil), p.hosts...)
+	p.mu.Unlock()
+	start := int(atomic.AddUint32(&p.pos, 1))
+	i := 0
+	return func() SelectedHost {
+		if i >= len(hosts) {
+			return nil
+		}
+		h := hosts[(start+i)%len(hosts)]
+		i++
+		return (*selectedHost)(h)
+	}
+}
+
+func vfC14NewEnv1(H, C, max int, uniq bool, seed int64, hold bool, timeout time.Duration, o vfC14Opt) (*vfC14Env, error) {
 	env := &vfC14Env{max: max, uniq: uniq, hold: hold, tab: map[vfC14Key]*vfC14NodeEnt{}, rng: rand.New(rand.NewSource(seed)),
 		hidOf: map[string]string{}, conns: map[[2]string]*Conn{}, execOf: map[int64]int{}, execSeen: map[int]int{},
 		sendMap: map[[2]int]int{}, heldExec: map[int]*vfC14Held{}, execGate: map[int]*vfGate{}, results: map[int]string{},
@@ -343,6 +433,22 @@ func vfC14NewEnv(H, C, max int, uniq bool, seed int64, hold bool, timeout time.D
 	env.ncon = C
 	cfg.Timeout = timeout
 	cfg.RetryPolicy = &SimpleRetryPolicy{NumRetries: 0}
+	if o.SameIP {
+		// node i (10.0.0.i:9042 as its peers report it) is reached at 10.0.0.1:(9041+i)
+		d := &vfC14Dialer{nodes: map[string]*vfNode{}}
+		for i, n := range env.nodes {
+			d.nodes[fmt.Sprintf("10.0.0.1:%d", 9042+i)] = n
+		}
+		cfg.HostDialer = d
+		cfg.AddressTranslator = AddressTranslatorFunc(func(addr net.IP, port int) (net.IP, int) {
+			if v4 := addr.To4(); v4 != nil && v4[0] == 10 && v4[1] == 0 && v4[2] == 0 && int(v4[3]) >= 1 && int(v4[3]) <= len(env.nodes) {
+				return net.IPv4(10, 0, 0, 1), 9042 + int(v4[3]) - 1
+			}
+			return addr, port
+		})
+		cfg.PoolConfig.HostSelectionPolicy = &vfC14Policy{}
+	}
+	env.sameIP = o.SameIP
 	s, err := NewSession(*cfg)
 	if err != nil {
 		return nil, err
